@@ -83,22 +83,16 @@ Lemma cnt_others : forall A (f : A -> bool) l i x,
   cnt f l + 1 = length l -> nth_error l i = Some x -> f x = false ->
   forall j y, j <> i -> nth_error l j = Some y -> f y = true.
 Proof.
-  intros A f l i x H E F j y ne Ey.
-  (* replace x by y: then every element satisfies f *)
-  pose proof (cnt_upd _ f i y x l E) as C. rewrite F in C.
-  destruct (f y) eqn:Fy; auto. exfalso.
-  (* y itself is a second element violating f *)
-  clear C. revert i j E Ey ne H. induction l; intros i j E Ey ne H; [destruct i; discriminate|].
-  cbn in H. pose proof (cnt_le_length _ f l).
-  destruct i, j; cbn in E, Ey; try congruence.
+  intros A f l. induction l as [|a r IH]; intros i x H E F j y ne Ey; [destruct i; discriminate|].
+  cbn in H. pose proof (cnt_le_length _ f r) as LE.
+  destruct i as [|i], j as [|j]; cbn in E, Ey; try congruence.
   - inversion E; subst. rewrite F in H. cbn in H.
-    assert (0 < length l - cnt f l \/ cnt f l = length l) by lia.
-    rewrite (cnt_full_all _ f l j y) in Fy; [discriminate| lia | auto].
-  - inversion Ey; subst. rewrite Fy in H. cbn in H.
-    rewrite (cnt_full_all _ f l i x) in F; [discriminate| lia | auto].
-  - destruct (f a); cbn in H.
-    + eapply IHl; eauto. lia.
-    + rewrite (cnt_full_all _ f l i x) in F; [discriminate| lia | auto].
+    apply (cnt_full_all _ f r j y); [lia | auto].
+  - inversion Ey; subst. destruct (f y) eqn:Fy; auto. cbn in H.
+    rewrite (cnt_full_all _ f r i x) in F; [discriminate | lia | auto].
+  - destruct (f a) eqn:Fa; cbn in H.
+    + apply (IH i x ltac:(lia) E F j y); auto.
+    + rewrite (cnt_full_all _ f r i x) in F; [discriminate | lia | auto].
 Qed.
 
 Lemma cnt_all_true : forall A (f : A -> bool) l,
@@ -139,14 +133,14 @@ Qed.
 Lemma sum_upd : forall A (f : A -> nat) i x y l,
   nth_error l i = Some y -> list_sum (map f (upd i x l)) + f y = list_sum (map f l) + f x.
 Proof.
-  intros A f i x y l; revert i; induction l; destruct i; cbn; intros H; try discriminate.
+  intros A f i x y l; revert i; unfold list_sum; induction l; destruct i; cbn; intros H; try discriminate.
   - inversion H; subst. lia.
   - specialize (IHl _ H). lia.
 Qed.
 
 Lemma sum_le_pointwise : forall A (f g : A -> nat) c l,
   (forall x, f x <= g x + c) -> list_sum (map f l) <= list_sum (map g l) + c * length l.
-Proof. induction l; cbn; intros H; auto. specialize (IHl H). specialize (H a). lia. Qed.
+Proof. intros A f g c l; unfold list_sum; induction l; cbn; intros H; [lia|]. specialize (IHl H). specialize (H a). lia. Qed.
 
 (* -------------------------------------------------------------------------------------------- extract *)
 Lemma extract_perm : forall sq l it rest,
@@ -194,7 +188,7 @@ Proof.
       unfold is_max in *. cbn [forallb]. rewrite L. auto.
     + exists x. repeat split; auto. left; auto.
       unfold is_max in *. cbn [forallb]. rewrite task_le_refl. cbn [andb].
-      rewrite forallb_forall in *. intros j J. specialize (M j J).
+      apply forallb_forall. intros j J. rewrite forallb_forall in M. specialize (M j J).
       destruct (task_le_total (itask x) (itask m)); [congruence|].
       eapply task_le_trans; eauto.
 Qed.
